@@ -183,8 +183,8 @@ def run(prog: Program, rep: Report, tier: str):
         audit_generic(prog, rep, "C02")
 
 
-def rule_scalar(prog, rep, classes):
-    rep.rule("C02.scalar", "the log-det component of every X_and_log_det is rank-0 in the rank domain "
+def rule_scalar(prog, rep, classes, R="C02.scalar"):
+    rep.rule(R, "the log-det component of every X_and_log_det is rank-0 in the rank domain "
                            "(full reduction, rank-0 constant, child log-det by induction, Python sum / "
                            "fold accumulation of rank-0 terms, elementwise function of a rank-0 term)",
              minimum=55)
@@ -204,16 +204,16 @@ def rule_scalar(prog, rep, classes):
             k = f"{c.qualname}.{m}[1]:rank0"
             l = ld(t)
             if has_unknown(l):
-                rep.undecided("C02.scalar", site, k, f"unmodelled: {find_unknown(l)}")
+                rep.undecided(R, site, k, f"unmodelled: {find_unknown(l)}")
                 continue
             r = rank_of(l, {"fields": fr, "x": xr, "bv": {}})
             if r == 0:
-                rep.holds("C02.scalar", site, k, show(l, 160))
+                rep.holds(R, site, k, show(l, 160))
             elif r in (1, "POS"):
-                rep.violated("C02.scalar", site, k,
+                rep.violated(R, site, k,
                              f"log-det is not reduced to a scalar (rank {r} in the rank domain): {show(l, 300)}")
             else:
-                rep.undecided("C02.scalar", site, k, f"rank not determined for {show(l, 300)}")
+                rep.undecided(R, site, k, f"rank not determined for {show(l, 300)}")
 
 
 PLANAR_U = "flowjax.bijections.planar._UnconditionalPlanar"
